@@ -204,6 +204,20 @@ def rule_panic_inv(fx, col):
                 continue
             match = (rule, reason)
             break
+        if match is None:
+            # the same assertion in another function (code moved into a helper / a helper merged into its caller): an invariant is
+            # named by WHAT is asserted (the values compared), and the discharging rule is checked crate-wide
+            cands = []
+            for (fn_sfx, what_sub, mac, need, rule, reason) in DISCHARGES:
+                w = what if kind == 'call' else ('assert:' + what)
+                if need and what_sub in w and mac == macro and mac and need <= toks:
+                    cands.append((rule, reason + ' (same assertion as in %s)' % fn_sfx))
+                # `debug_assert!(a == b)` for `debug_assert_eq!(a, b)` (the comparison moved into a predicate helper)
+                elif need and what_sub == 'assert_failed' and mac in ('debug_assert_eq', 'assert_eq') and macro == mac[:-3] and kind == 'call' \
+                        and what.split('::')[-1] in ('panic', 'panic_fmt') and (need | {'op:Eq'}) <= toks:
+                    cands.append((rule, reason + ' (same assertion as in %s, spelled assert!(a == b))' % fn_sfx))
+            if len({c[0] for c in cands}) == 1:
+                match = cands[0]
         n = per_fn.get((fname, kind, what, macro), 0)
         per_fn[(fname, kind, what, macro)] = n + 1
         key = '%s|%s %s%s|%s' % (fname, kind, what.split('::')[-1], (' in ' + macro + '!') if macro else '', ','.join(sorted(toks)) or '-')
@@ -580,6 +594,13 @@ def rule_envelope_provenance(fx, col):
             toks = tokens(cx, b, s.arg(1))
             rest = {t for t in toks if not (t.startswith('const:') or t == 'static:TAG_MASK' or t.startswith('binop:'))}
             ok = bool(rest) and rest <= {'atomic:space_offer.load', 'atomic:control.swap'}
+            if not ok:
+                # init() spelled with a store: the value is the address of the slot's own handover field
+                r_, f_ = b.ref_path(s.arg(1))
+                ff = [x for x in f_ if x['k'] == 'field']
+                if ff and ff[-1]['adt'] == 'arc_swap::debt::helping::Slots' and ff[-1]['name'] == 'handover' and r_ == s.root:
+                    ok = True
+                    toks = {'field:helping::Slots.handover (own)'}
             col.add('ENVELOPE-PROVENANCE', s.key(), bool(ok), 'value stored into space_offer derives from %s' % sorted(toks), s.loc)
         elif s.op == 'get_mut':
             n += 1
